@@ -187,7 +187,7 @@ def run(ctx):
         check_histories(ctx, r.cases_path, obs, prof)
 
     # --- DIE buffers / cursors / trees / abbreviation cache
-    r2 = ctx.tlc("MCReuse", write_cfg("MCReuse_run", {"MaxUnits": 3, "MaxTok": 3 if q else 5}), timeout=7200)
+    r2 = ctx.tlc("MCReuse", write_cfg("MCReuse_run", {"MaxUnits": 3, "MaxTok": 3 if q else 4}), timeout=7200)
     if r2.ncases == 0:
         raise ToolError("no reuse cases")
     for prof, b in reuse.items():
